@@ -873,8 +873,9 @@ _U64 = [0, 1, 2**64 - 1, 2**63]
 _F32MAX = 3.4028234663852886e38
 _FLOAT = [0.0, -0.0, 1.5, float("inf"), float("-inf"), float("nan"), _F32MAX]
 _DOUBLE = _FLOAT + [1e308, 5e-324]
-_STR = ["", "a", "é", "\U0001F600", "\x00"]
-_BYTES = [b"", b"\x00", b"\xff\x00abc"]
+# the last entries sit on the length-prefix boundaries (127 | 128 bytes, 16383 | 16384 bytes)
+_STR = ["", "a", "é", "\U0001F600", "\x00", "y" * 127, "y" * 128, "z" * 16384]
+_BYTES = [b"", b"\x00", b"\xff\x00abc", b"\x07" * 128]
 
 
 def _tz(h, m=0):
@@ -1027,6 +1028,11 @@ def field_pool(f):
         out += [_list_val([v]) for v in base]
         out.append(_list_val(base + [base[0], base[-1]]))
         out.append(_list_val([base[0], base[0]]))
+        # length-prefix boundaries of packed payloads: fewer than 128 items but >= 128 payload bytes, and
+        # more than 128 one-byte items
+        wide = ([v for v in base if len(v.text) < 40] or [base[-1]])[-1]
+        out.append(Val(lambda wide=wide: [wide.make() for _ in range(40)], "[%s] * 40" % wide.text))
+        out.append(Val(lambda b1=base[1]: [b1.make() for _ in range(130)], "[%s] * 130" % base[1].text))
         return out
     if f.label == "optional" or f.wraps:
         return [Val(lambda: None, "None")] + base
